@@ -372,8 +372,54 @@ def mc_cpct(res, pid, tier):
         raise core.ToolError("vacuity: a deliberately wrong CPCT+ variant was not refuted by MC_CPCT: %s" % refuted)
 
 
+MC_RECOVER_SETS = {"quick": (["cat-calc"], 5, 3), "thorough": (["cat-calc", "cat-list-sep", "cat-rec-merge-del-ins"], 6, 3)}
+
+
+def mc_recover(res, pid, tier):
+    """bounded model of the parse loop with error recovery (MC_Recover.tla): every input up to
+    length L, every choice among the minimum-cost repairs at every error"""
+    ids, L, maxops = MC_RECOVER_SETS[tier]
+    insts = [dict(id=c["id"], y=c["y"], kind=c["kind"], width=32, sections=[], inputs={}, recovery="off", iseed=1, budget_ms=100)
+             for c in catalog.CAT if c["id"] in ids]
+    jf = os.path.join(res.wd, "mcr-job.json")
+    of = os.path.join(res.wd, "mcr-out.ndjson")
+    gf = os.path.join(res.wd, "mcr-grammars.ndjson")
+    with open(jf, "w") as f:
+        json.dump(dict(seed=1, instances=insts, workers=4), f)
+    core.run_vh(["lr", jf, of])
+    with open(gf, "w") as f:
+        for line in open(of):
+            if '"ev":"grammar"' in line:
+                f.write(line)
+    body = "SPECIFICATION Spec\nCONSTANTS\n  L = %d\n  MAXOPS = %d\n  Gap = 3\n  ParseAtLeast = %d\n  TryParseAtMost = 250\n" \
+           "INVARIANT NoLoop\nINVARIANT Increasing\nINVARIANT Bounded\nINVARIANT AllButLastRepaired\nINVARIANT Outcome\nINVARIANT NoBackwards\n" \
+           "INVARIANT AcceptedUnchanged\nINVARIANT FirstErrorEarliest\nCHECK_DEADLOCK FALSE\n"
+    cfg = os.path.join(res.wd, "MC_Recover.cfg")
+    with open(cfg, "w") as f:
+        f.write(body % (L, maxops, 3))
+    r = core.run_tlc("MC_Recover", cfg, dict(GRAMMARS=gf), res.wd, timeout=3000, workers=12 if tier == "thorough" else 8, heap="10g")
+    res.add_tlc(r)
+    res.notes["mc_recover"] = dict(grammars=ids, distinct=r["distinct"], input_length=L,
+                                   what="the parse loop with recovery as a state machine (Parse / Recover with ANY minimum-cost repair applied): "
+                                        "no loop, errors >= 3 lexemes apart and bounded in number, all but the last repaired, value iff all repaired, "
+                                        "accepted-unchanged inputs are sentences, first error at the first non-prefix")
+    if r["error"]:
+        res.violation("bounded model MC_Recover.tla: " + r["error"][:500], dict(kind="mc", grammars=ids))
+    elif not r["finished"]:
+        res.cov["inconclusive"] += 1
+    cfg2 = os.path.join(res.wd, "MC_Recover_n2.cfg")
+    with open(cfg2, "w") as f:
+        f.write(body % (5, maxops, 2))
+    r2 = core.run_tlc("MC_Recover", cfg2, dict(GRAMMARS=gf), res.wd, timeout=900, workers=4, heap="4g")
+    res.notes["mc_recover_mutation_sanity"] = dict(refuted=bool(r2["error"]), what="success after 2 shifts instead of 3")
+    if not r2["error"]:
+        raise core.ToolError("vacuity: a recovery that succeeds after 2 shifts was not refuted by MC_Recover")
+
+
 def main(pid, tier, replay=None):
     res = run(pid, tier, replay)
+    if pid == "C07" and not replay:
+        mc_recover(res, pid, tier)
     if pid in ("C01", "C02") and not replay:
         mc_pager(res, pid, tier)
     if pid in ("C05", "C06") and not replay:
